@@ -68,7 +68,7 @@ def generate(rng, tier):
         for pos in range(4):
             for inner in (False, True):
                 out.append({'kind': 'flaky', 'shape': [kind, pos, inner]})
-    out += [{'kind': 'subclass', 'i': i} for i in range(len(SUBCLASS_PATHS))]
+    out += [{'kind': 'subclass', 'i': i} for i in range(len(SUBCLASS_PATHS) + SCALAR_SUBCLASS_TARGETS)]
     for _ in range(n // 10):
         cells, path = c11.broadcast(rng)
         if any(p[0] == 'X' for p in path):
@@ -175,9 +175,77 @@ def _subclass_target(sub):
     return {'rows': L([{'k': 1, 'p': P((7, 8))}, {'k': 2, 'p': P(())}, L([{'k': 3}])]), 'tags': F(['x'])}
 
 
+SCALAR_SUBCLASS_TARGETS = 4
+
+
+def _scalar_subclass_target(i):
+    """values whose class derives from str / float / int / bytes but which carry instance attributes: objects with attribute
+    values like any other, at the root and below it"""
+    class Tag(str):
+        pass
+
+    class Weight(float):
+        pass
+
+    class Code(int):
+        pass
+
+    class Blob(bytes):
+        pass
+    tag, w, c, b = Tag('x'), Weight(2.5), Code(700), Blob(b'zz')
+    tag.meta = {'k': 1001}
+    w.unit = ['kg']
+    c.note = {'k': 1002}
+    b.origin = ('file', 1003)
+    return [[tag], {'a': w, 'b': [c]}, {'r': {'s': [b, {'k': 1004}]}, 't': tag}, tag][i]
+
+
+def _bfs_by_star(root):
+    """** spelled with *: the value itself, then breadth-first the children * lists, every object listed once"""
+    import glom
+    out, seen, queue = [root], {id(root)}, [root]
+    while queue:
+        node = queue.pop(0)
+        try:
+            children = glom.glom(node, '*')
+        except glom.GlomError:
+            children = []
+        for ch in children:
+            if id(ch) not in seen:
+                seen.add(id(ch))
+                out.append(ch)
+                queue.append(ch)
+    return out
+
+
+def run_scalar_subclass(i):
+    import glom
+    problems = []
+    t = _scalar_subclass_target(i)
+    want = _bfs_by_star(t)
+    for spec in ('**', glom.Path(glom.T.__starstar__()), glom.T.__starstar__()):
+        try:
+            got = glom.glom(t, spec)
+        except Exception as e:
+            problems.append('%r on %r raised %s' % (spec, t, type(e).__name__))
+            continue
+        if len(got) != len(want) or any(a is not b_ for a, b_ in zip(got, want)):
+            problems.append('%r on %r lists %r; following * breadth-first from the value gives %r' % (spec, t, got, want))
+    try:
+        got = glom.glom(t, '**.k')
+        want_k = [n['k'] for n in want if isinstance(n, dict) and 'k' in n]
+        if got != want_k:
+            problems.append("'**.k' on %r gives %r, the descendants holding k give %r" % (t, got, want_k))
+    except Exception as e:
+        problems.append("'**.k' on %r raised %s" % (t, type(e).__name__))
+    return {'problems': problems}
+
+
 def run_subclass(case):
     """F45: an instance of a list / tuple / set subclass is a sequence / set like its base: * and ** list its items"""
     import glom
+    if case['i'] >= len(SUBCLASS_PATHS):
+        return run_scalar_subclass(case['i'] - len(SUBCLASS_PATHS))
     spec = SUBCLASS_PATHS[case['i']]
 
     def plain(x):
